@@ -68,6 +68,8 @@ impl Prop for C22 {
             let regime = rng.weighted(&[5, 3, 3, 2, 3]);
             let served_for = rng.range(1, 2 * ka as i64 + 4);
             let writes = item && rng.chance(2, 3);
+            // ModifySubscription / SetPublishingMode / other service calls in the middle of the history
+            let services = rng.chance(1, 4);
             let p_elapsed = *rng.pick(&[1u64, 1, 1, 2, 4]); // elapsed with probability 1 - 1/(p+1) ...
             let ticks = life as i64 + ka as i64 * 2 + rng.range(2, 12);
             let ticks = if regime == 4 { served_for + life as i64 + 2 * ka as i64 + rng.range(6, 12) } else { ticks };
@@ -110,14 +112,30 @@ impl Prop for C22 {
                         }
                     }
                 }
+                if services && rng.chance(1, 8) {
+                    match rng.below(3) {
+                        0 => {
+                            let k = *rng.pick(&[0u64, 1, 2, 3, 5, 40000]);
+                            let l = *rng.pick(&[0u64, 1, 3, 6, 7, 20, 100000]);
+                            out.push(format!("modify {} {}", k, l));
+                        }
+                        1 => out.push(format!("enable {}", b(rng.chance(1, 2)))),
+                        _ => out.push("touch".to_string()),
+                    }
+                }
                 let e = p_elapsed == 1 || !rng.chance(1, p_elapsed + 1);
                 let w = writes && rng.chance(1, 2);
                 out.push(format!("timer {} {}", b(e), b(w)));
             }
             if rng.chance(1, 2) {
-                // a late publish request collects a pending status change
-                out.push(format!("pub {}", rid));
+                // late publish requests collect what has piled up (kept data notifications: rows #10
+                // then #5 — "more notifications" — and finally a pending status change)
+                for _ in 0..rng.range(1, 4) {
+                    out.push(format!("pub {}", rid));
+                    rid += 1;
+                }
                 out.push("timer 1 0".to_string());
+                out.push(format!("pub {}", rid));
             }
         }
     }
@@ -134,6 +152,7 @@ impl Prop for C22 {
             served_idle: true,
             never_req: true,
             idle_run: 0,
+            perturbed: false,
             closed_seen: false,
         })
     }
@@ -151,6 +170,7 @@ struct R {
     since_ka: u64,     // publishing intervals elapsed since the last keep-alive response (or creation)
     served_idle: bool, // so far: a request was queued at every timer tick, and no data (no item)
     never_req: bool,   // so far: no publish request was ever sent
+    perturbed: bool,   // a service changed parameters / reset counters mid-history: the regime claims no longer apply
     idle_run: u64,     // publishing intervals in a row with no request queued and nothing sent
     closed_seen: bool, // the subscription was seen Closed / removed / a status change was published
 }
@@ -165,11 +185,11 @@ impl R {
         let mut v = None;
         if closed_now && !self.closed_seen {
             // "... and never expires the subscription" (enabled, requests always available, no data)
-            if self.valid_config() && self.enabled && self.served_idle {
+            if self.valid_config() && self.enabled && self.served_idle && !self.perturbed {
                 v = Some(Verdict::fail("never_expires", class, format!("served idle subscription closed after {} intervals", self.n_elapsed)));
             }
             // "closed ... after about lifetime-count publishing intervals (within one interval), and not before"
-            if self.life >= 1 && self.n_elapsed + 1 < self.life {
+            if self.life >= 1 && !self.perturbed && self.n_elapsed + 1 < self.life {
                 v = Some(Verdict::fail("not_before", class, format!("closed after {} intervals, lifetime count {}", self.n_elapsed, self.life)));
             }
             self.closed_seen = true;
@@ -241,7 +261,7 @@ impl Runner for R {
                 if resps.iter().any(|r| r.kind == "sc?") {
                     v = Verdict::fail("status_is_bad_timeout", class, "status change with a status other than BadTimeout");
                 }
-                if valid && self.enabled && self.served_idle {
+                if valid && self.enabled && self.served_idle && !self.perturbed {
                     // "a keep-alive after the first publishing interval"
                     if counted && self.n_elapsed == 1 && kas == 0 {
                         v = Verdict::fail("keepalive_first", class, "no keep-alive at the first elapsed publishing interval");
@@ -307,6 +327,63 @@ impl Runner for R {
                     v = f;
                 }
                 (line, v)
+            }
+            [op @ ("modify" | "enable"), ..] => {
+                // the REAL ModifySubscription / SetPublishingMode services: the subscription is moved
+                // into a session for the call and back afterwards
+                use opcua::server::prelude::*;
+                use opcua::verif_hooks::subs as hooks;
+                let w = self.w.as_mut().unwrap();
+                let Some(sub) = w.subs.remove(1) else {
+                    return ("err nosub".to_string(), Verdict::Ok);
+                };
+                let session = std::sync::Arc::new(opcua::sync::RwLock::new(opcua::server::session::Session::new(fx.server_state.clone())));
+                hooks::session_insert_subscription(&mut session.write(), 1, sub);
+                let header = RequestHeader::new(&NodeId::null(), &DateTime::now(), 1);
+                let good = if *op == "modify" {
+                    let req = ModifySubscriptionRequest {
+                        request_header: header,
+                        subscription_id: 1,
+                        requested_publishing_interval: INTERVAL_MS,
+                        requested_lifetime_count: toks[2].parse().unwrap(),
+                        requested_max_keep_alive_count: toks[1].parse().unwrap(),
+                        max_notifications_per_publish: 0,
+                        priority: 0,
+                    };
+                    matches!(hooks::modify_subscription(fx.server_state.clone(), session.clone(), &req), SupportedMessage::ModifySubscriptionResponse(_))
+                } else {
+                    let req = SetPublishingModeRequest {
+                        request_header: header,
+                        publishing_enabled: toks[1] == "1",
+                        subscription_ids: Some(vec![1]),
+                    };
+                    match hooks::set_publishing_mode(session.clone(), &req) {
+                        SupportedMessage::SetPublishingModeResponse(r) => r.results.map(|v| v == vec![StatusCode::Good]).unwrap_or(false),
+                        _ => false,
+                    }
+                };
+                let sub = hooks::session_remove_subscription(&mut session.write(), 1).expect("subscription");
+                self.ka = sub.max_keep_alive_count() as u64;
+                self.life = sub.max_lifetime_count() as u64;
+                self.enabled = sub.verif_publishing_enabled();
+                w.subs.insert(1, sub);
+                self.perturbed = true;
+                self.idle_run = 0;
+                let v = if good { Verdict::Ok } else { Verdict::fail("service_ok", "service", "the service refused a valid request") };
+                (format!("ok {}", w.show_single(&[])), v)
+            }
+            ["touch"] => {
+                // any service naming the subscription resets its lifetime counter (here: DeleteMonitoredItems)
+                let w = self.w.as_mut().unwrap();
+                match w.subs.get_mut(1) {
+                    None => ("err nosub".to_string(), Verdict::Ok),
+                    Some(sub) => {
+                        let _ = sub.delete_monitored_items(&[4_000_000]);
+                        self.perturbed = true;
+                        self.idle_run = 0;
+                        (format!("ok {}", w.show_single(&[])), Verdict::Ok)
+                    }
+                }
             }
             ["us", st, life, ka, sent, en, ml, mk, t, na, more, req, ex] => {
                 // ONE call of the real `update_state` from an arbitrary position
